@@ -121,6 +121,33 @@ def physical_paths(res):
                      {"api": "pt_tempo_compute(process_tensor_file=True) + compute_dynamics",
                       "step": k, "complaints": bad})
             break
+    # (a') PT-TEBD started from a correlated chain state given with explicit bond values
+    #      (rho = (|00><00| + |11><11|)/2) and a run restarted from its exported chain state
+    up, dn = op.spin_dm("z+"), op.spin_dm("z-")
+    g0 = np.zeros((1, 4, 2), dtype=complex)
+    g1 = np.zeros((2, 4, 1), dtype=complex)
+    for a, dm in enumerate((up, dn)):
+        g0[0, :, a] = dm.reshape(4)
+        g1[a, :, 0] = dm.reshape(4)
+    chain = oqupy.SystemChain(hilbert_space_dimensions=[2, 2])
+    chain.add_site_hamiltonian(site=0, hamiltonian=0.5 * op.sigma("x"))
+    chain.add_nn_hamiltonian(site=0, hamiltonian_l=op.sigma("z"), hamiltonian_r=op.sigma("z"))
+    tpar = oqupy.PtTebdParameters(dt=0.1, order=2, epsrel=1e-9)
+    first = oqupy.PtTebd(oqupy.AugmentedMPS([g0, g1], lambdas=[np.array([0.5, 0.5])]), chain,
+                         [None, None], tpar, dynamics_sites=[0, 1], start_time=0.0)
+    r1 = first.compute(end_step=2, progress_type="silent")
+    second = oqupy.PtTebd(first.get_augmented_mps(), chain, [None, None], tpar,
+                          dynamics_sites=[0, 1], start_time=0.2, start_step=2)
+    r2 = second.compute(end_step=4, progress_type="silent")
+    for tag, r in (("correlated initial state (explicit bond values)", r1),
+                   ("restarted from the exported chain state", r2)):
+        worst = max(abs(complex(x) - 1.0) for x in r["norm"])
+        traces = max(abs(np.trace(st) - 1.0) for site in (0, 1) for st in r["dynamics"][site].states)
+        res.case("pt-tebd:" + tag, True, None)
+        if worst > 1e-6 or traces > 1e-6:
+            res.fail("PT-TEBD %s: norm / site traces" % tag,
+                     {"api": "PtTebd", "what": tag, "max|norm-1|": float(worst),
+                      "max|site trace-1|": float(traces)})
     # (b) mean-field evolution with sampled propagators (subdiv_limit=None)
     tsys = oqupy.TimeDependentSystemWithField(
         lambda t, a: 0.5 * op.sigma("x") + 0.2 * np.real(a) * op.sigma("z"),
